@@ -25,6 +25,16 @@ def Leftover (fs : FS) : Prop :=
 
 def Queued (p : Params) (s : St) (fs : FS) : Prop := N fs false true true true ∧ Complete p fs ∧ EnvOk p s fs
 
+/-- the shape of the names of one entry at any instant: the complete entry, or a leftover the
+daemon collects -/
+def Names (fs : FS) : Prop :=
+  (fs.todoName = true → fs.intdName = true ∧ fs.messName = true ∧ fs.pidName = false) ∧
+  (fs.intdName = true → fs.messName = true) ∧ (fs.pidName = true → fs.intdName = false)
+
+/-- what is known when the process is stopped at an arbitrary point by a signal handler (which does
+not clean up): if the entry is visible it is complete and durable; the names are collectable -/
+def Weak (p : Params) (s : St) (fs : FS) : Prop := (fs.todoName = true → Queued p s fs) ∧ Names fs
+
 def QInv (p : Params) (s : St) (fs : FS) : Prop :=
   match s.pc with
   | .start => N fs false false false false ∧ s.madeMess = false ∧ s.madeIntd = false ∧ s.messW = [] ∧ s.intdW = []
@@ -44,7 +54,34 @@ def QInv (p : Params) (s : St) (fs : FS) : Prop :=
   | .clMessTrunc c => c ≠ 0 ∧ N fs false fs.messName false false
   | .clMessUnlink c => c ≠ 0 ∧ N fs false fs.messName false false
   | .dying c => if c = 0 then Queued p s fs else Leftover fs
-  | .exited c => if c = 0 then Queued p s fs else Leftover fs
+  | .exited c => if c = 0 then Queued p s fs else if c = 52 ∨ c = 81 then Weak p s fs else Leftover fs
+  | .handler c => (c = 52 ∨ c = 81) ∧ Weak p s fs
+
+/-- in every control point: the entry is visible only when it is complete and durable -/
+theorem inv_todo (p : Params) (s : St) (fs : FS) (h : QInv p s fs) (ht : fs.todoName = true) :
+    Queued p s fs := by
+  unfold QInv at h
+  split at h <;> try (simp [N, ht] at h)
+  all_goals first
+    | exact h
+    | exact h.2.1 ht
+    | (split at h
+       · exact h
+       · split at h
+         · exact h.1 ht
+         · simp [Leftover, ht] at h)
+    | (split at h
+       · exact h
+       · simp [Leftover, ht] at h)
+
+/-- in every control point the set of names is one of the documented leftovers or the queued state -/
+theorem inv_names (p : Params) (s : St) (fs : FS) (h : QInv p s fs) : Names fs := by
+  unfold QInv at h
+  unfold Names
+  split at h <;> simp only [N, Queued, Leftover, Weak, Names] at h <;> (try split at h) <;> (try split at h) <;> simp_all
+
+theorem weak_of_inv (p : Params) (s : St) (fs : FS) (h : QInv p s fs) : Weak p s fs :=
+  ⟨inv_todo p s fs h, inv_names p s fs h⟩
 
 theorem inv_init (p : Params) : QInv p {} {} := by simp [QInv, N]
 
@@ -360,24 +397,6 @@ theorem accept_prefix (p : Params) : ∀ (evs : List Ev) (k : Nat) (s s' : St),
       simp [h1] at h
       obtain ⟨s'', hs⟩ := accept_prefix p es k s1 s' h
       exact ⟨s'', by simp [acceptAll, h1, hs]⟩
-
-/-- in every control point: the entry is visible only when it is complete and durable -/
-theorem inv_todo (p : Params) (s : St) (fs : FS) (h : QInv p s fs) (ht : fs.todoName = true) :
-    Queued p s fs := by
-  unfold QInv at h
-  split at h <;> try (simp [N, ht] at h)
-  all_goals first
-    | exact h
-    | (split at h
-       · exact h
-       · simp [Leftover, ht] at h)
-
-/-- in every control point the set of names is one of the documented leftovers or the queued state -/
-theorem inv_names (p : Params) (s : St) (fs : FS) (h : QInv p s fs) :
-    (fs.todoName = true → fs.intdName = true ∧ fs.messName = true ∧ fs.pidName = false) ∧
-    (fs.intdName = true → fs.messName = true) ∧ (fs.pidName = true → fs.intdName = false) := by
-  unfold QInv at h
-  split at h <;> simp only [N, Queued, Leftover] at h <;> (try split at h) <;> simp_all
 
 /-! ### scanner facts -/
 
